@@ -958,10 +958,111 @@ def initial_time_family(ctx, n):
             ctx.fail(case, 'run() ended at %r, the last event is due at %r' % (env.now, limit), family='initial-time')
 
 
+def directed_simpy(ctx, n):
+    """further directed cases with expectations written from the text (implementation only):
+    * an environment ENTERED INSIDE a usim simulation, before, at or after its initial_time: it starts at
+      max(initial_time, time of entry) and its timeouts fire `delay` after that;
+    * `process.interrupt()` without a cause next to one with a cause: Interrupt(None) then Interrupt(cause), one per
+      yield, in call order, in the time step of the calls;
+    * AllOf whose members succeed and fail in ONE time step, in either order, awaited by a process that handles the
+      failure: the process sees the failure at that time and the run goes on."""
+    import usim
+    from usim.py import Environment
+    from usim.py.exceptions import Interrupt
+    rng = ctx.rng
+    for _ in range(n):
+        kind = rng.choice(['embedded', 'interrupts', 'allof'])
+        log = []
+        if kind == 'embedded':
+            T0, enter, d = rng.choice([0, 0, 4, 9]), rng.choice([0, 3, 4, 7]), rng.choice([1, 2, 5])
+            case = {'embedded': dict(initial_time=T0, entered_at=enter, delay=d)}
+
+            def proc(env):
+                log.append(('start', env.now))
+                yield env.timeout(d)
+                log.append(('end', env.now))
+
+            async def main():
+                if enter:
+                    await (usim.time + enter)
+                env = Environment(initial_time=T0)
+                env.process(proc(env))
+                await env.until()
+                log.append(('left', usim.time.now))
+            base = max(T0, enter)
+            want = [('start', base), ('end', base + d), ('left', base + d)]
+            runner = lambda: usim.run(main())   # noqa
+        elif kind == 'interrupts':
+            t = rng.choice([1, 2])
+            causes = [rng.choice([None, None, 'x', 7]) for _ in range(rng.choice([1, 2, 3]))]
+            case = {'interrupts': dict(at=t, causes=[repr(c) for c in causes])}
+            env = Environment()
+
+            def victim(env):
+                for _ in causes:
+                    try:
+                        yield env.timeout(50)
+                        log.append(('not interrupted', env.now))
+                    except Interrupt as i:
+                        log.append(('interrupt', i.cause, env.now))
+                log.append(('victim done', env.now))
+
+            def attacker(env, v):
+                yield env.timeout(t)
+                for c in causes:
+                    if c is None and rng.random() < 0.7:
+                        v.interrupt()
+                    else:
+                        v.interrupt(c)
+                log.append(('attacker done', env.now))
+            v = env.process(victim(env))
+            env.process(attacker(env, v))
+            want = [('attacker done', t)] + [('interrupt', c, t) for c in causes] + [('victim done', t)]
+            runner = lambda: env.run()   # noqa
+        else:
+            t, fail_first = rng.choice([1, 3]), rng.random() < 0.5
+            nm = rng.choice([2, 3])
+            case = {'allof': dict(at=t, members=nm, fail_first=fail_first)}
+            env = Environment()
+            evs = [env.event() for _ in range(nm)]
+            bad = 0 if fail_first else rng.randrange(1, nm)
+
+            def waiter(env):
+                try:
+                    yield env.all_of(evs)
+                    log.append(('no failure seen', env.now))
+                except KeyError as e:
+                    log.append(('handled', e.args[0], env.now))
+                yield env.timeout(5)
+                log.append(('waiter done', env.now))
+
+            def controller(env):
+                yield env.timeout(t)
+                for i, e in enumerate(evs):
+                    if i == bad:
+                        e.fail(KeyError('member %d' % i))
+                    else:
+                        e.succeed(i)
+            env.process(waiter(env))
+            env.process(controller(env))
+            want = [('handled', 'member %d' % bad, t), ('waiter done', t + 5)]
+            runner = lambda: env.run()   # noqa
+        try:
+            runner()
+        except BaseException as e:   # noqa
+            ctx.fail(case, 'the run raised %r; logged so far %r, expected %r' % (e, log, want), family='directed-simpy')
+            continue
+        ctx.count(case, nontrivial=True)
+        ctx.bump('family:directed-simpy:' + kind)
+        if log != want:
+            ctx.fail(case, 'observed %r, expected %r' % (log, want), family='directed-simpy')
+
+
 def run(ctx):
     import json
     from harness.check import parse_nat_list
     initial_time_family(ctx, ctx.n(40, 600))
+    directed_simpy(ctx, ctx.n(60, 900))
     # cases are kept as strings only: the per-run gc.collect() (needed so that tasks left parked by one
     # run are finalised before the next loop starts) must not have to traverse thousands of old graphs
     cases = []
